@@ -524,7 +524,7 @@ def rule_n13(repo):
     variable of the pattern's body stands for such a term: with ?y := x, the pattern ?y + F (%x. ?y) must not match
     x + F (%z. z), which it does when the stand-in for the binder is also called x.  The list of names to avoid takes
     names from the instantiation."""
-    from ..fresh import fresh_sites
+    from ..fresh import fresh_sites, _sum_parts
     res = RuleResult('C09.N13', 'the stand-in for a bound variable also avoids the variables of the terms already assigned', floor=1)
     f = repo.func(MATCHER, 'first_order_match')
     n_sites = 0
@@ -532,19 +532,22 @@ def rule_n13(repo):
         flow = flow_of(g.node)
         for c, avoid, how, ok0, detail in fresh_sites(g):
             n_sites += 1
-            if not isinstance(avoid, ast.Name):
-                res.add('%s :: first_order_match.%s :: avoid-list' % (MATCHER, name), False, 'the names to avoid are not collected in a list of their own', '%s:%d' % (MATCHER, c.lineno))
-                continue
-            # everything that flows into the list
-            contrib = [r for _k, r in flow.defs.get(avoid.id, [])]
-            for lp in ast.walk(g.node):
-                if isinstance(lp, ast.For) and any(isinstance(x, ast.Call) and call_attr(x) in ('append', 'extend') and is_name(x.func.value, avoid.id) for x in ast.walk(lp)):
-                    contrib.append(lp.iter)
+            # everything that flows into the list (a list written in place, or a concatenation, is followed part by part)
+            avoid = c.args[1]
+            contrib = []
+            for part in _sum_parts(avoid):
+                if not isinstance(part, ast.Name):
+                    contrib.append(part)
+                    continue
+                contrib += [r for _k, r in flow.defs.get(part.id, [])]
+                for lp in ast.walk(g.node):
+                    if isinstance(lp, ast.For) and any(isinstance(x, ast.Call) and call_attr(x) in ('append', 'extend') and is_name(x.func.value, part.id) for x in ast.walk(lp)):
+                        contrib.append(lp.iter)
             from_inst = any(isinstance(x, ast.Name) and x.id == 'inst' for e in contrib for x in ast.walk(e))
             res.add('%s :: first_order_match.%s :: avoid-list-includes-instantiation' % (MATCHER, name), from_inst,
-                    'names of the variables of the assigned terms are added to `%s`' % avoid.id if from_inst else
+                    'names of the variables of the assigned terms are added to `%s`' % src(avoid, 40) if from_inst else
                     'line %d chooses the stand-in against `%s`, which is built from the two bodies only: a variable of a term assigned earlier can have the same '
-                    'name, and ?y + F (%%x. ?y) matches x + F (%%z. z)' % (c.lineno, avoid.id), '%s:%d' % (MATCHER, c.lineno))
+                    'name, and ?y + F (%%x. ?y) matches x + F (%%z. z)' % (c.lineno, src(avoid, 40)), '%s:%d' % (MATCHER, c.lineno))
     need(n_sites, 'first_order_match: no fresh-name site found')
     return res
 
